@@ -177,6 +177,10 @@ fn gen_wait(rng: &mut Rng, mix: &[u32; 3]) -> Wait {
     }
 }
 
+thread_local! {
+    pub static MULTI_GET_MAY_REPEAT_KEYS: std::cell::Cell<bool> = std::cell::Cell::new(false);
+}
+
 pub fn gen_read(rng: &mut Rng, keys: u32) -> Op {
     let kind = *rng.pick(&ALL_READS);
     let ks: Vec<u32> = if kind.is_multi() {
@@ -184,8 +188,12 @@ pub fn gen_read(rng: &mut Rng, keys: u32) -> Op {
         rng.shuffle(&mut all);
         let n = rng.range(1, keys.min(4) as u64) as usize;
         all.truncate(n);
-        if rng.chance(1, 5) {
-            // the same key asked for twice, side by side or apart
+        // the same key asked for twice, side by side or apart. (multi_get answers with a map, one
+        // entry per key: when the key's state changes between its two lookups the history cannot
+        // tell a hit from a miss per position, so only C02's generator, which judges values, asks
+        // multi_get this way; the iterators answer per position)
+        let dup_ok = kind != ReadKind::MultiGet || MULTI_GET_MAY_REPEAT_KEYS.with(|c| c.get());
+        if rng.chance(1, 5) && dup_ok {
             let j = rng.usize_below(all.len());
             let k = all[j];
             if rng.chance(2, 3) {
